@@ -209,6 +209,29 @@ func normaliseHelpers(dir, tags string, env []string, baseline map[string]bool) 
 	if err != nil {
 		return nil, nil, err
 	}
+	// named results are spelled out first (`func f() (v T, err error)` becomes `func f() (T, error)` with
+	// locals v, err and `return v, err` for every bare return): with a deferred unlock go/ssa keeps named
+	// results in memory slots, which hides per-path values from every rule that looks at what a return
+	// yields; as locals they are ordinary SSA values
+	for _, p := range pp {
+		if !strings.HasPrefix(p.PkgPath, modulePath) {
+			continue
+		}
+		for _, f := range p.Syntax {
+			name := p.Fset.PositionFor(f.Pos(), false).Filename
+			if name == "" || strings.HasSuffix(name, "_test.go") {
+				continue
+			}
+			src, rerr := os.ReadFile(name)
+			if rerr != nil {
+				continue
+			}
+			if out, n := unnameResults(p.Fset, f, src); n > 0 {
+				overlay[name] = out
+				notes = append(notes, fmt.Sprintf("%s: named results of %d function(s) spelled out as locals", strings.TrimPrefix(name, dir+"/"), n))
+			}
+		}
+	}
 	anyNew := false
 	present := map[string]bool{}
 	type cand struct{ id, name, print string }
@@ -276,6 +299,9 @@ func normaliseHelpers(dir, tags string, env []string, baseline map[string]bool) 
 		}
 	}
 	if !anyNew {
+		if len(overlay) > 0 {
+			return overlay, notes, nil
+		}
 		return nil, notes, nil
 	}
 	for round := 1; round <= 6; round++ {
@@ -977,7 +1003,14 @@ func (in *inliner) expand(f *ast.File, encl *ast.FuncDecl, s ast.Stmt, c *ast.Ca
 			a := c.Args[pi]
 			tmp := fmt.Sprintf("__a%d_%s", pi, k)
 			pt := ts(sig.Params().At(pi).Type())
-			fmt.Fprintf(&hoist, "var %s %s = %s; ", tmp, pt, in.text(f, a.Pos(), a.End()))
+			// the type is spelled out only where it is needed (conversion to an interface, untyped constants):
+			// at the call site a local may shadow the type's name (`request := …; f(request)` with a parameter
+			// of type *request)
+			if at := in.info.TypeOf(a); at != nil && types.Identical(at, sig.Params().At(pi).Type()) && in.typeNameShadowed(sig.Params().At(pi).Type(), c.Pos()) {
+				fmt.Fprintf(&hoist, "%s := %s; ", tmp, in.text(f, a.Pos(), a.End()))
+			} else {
+				fmt.Fprintf(&hoist, "var %s %s = %s; ", tmp, pt, in.text(f, a.Pos(), a.End()))
+			}
 			binds = append(binds, bind{nm.Name, pt, tmp})
 			pi++
 		}
@@ -988,7 +1021,7 @@ func (in *inliner) expand(f *ast.File, encl *ast.FuncDecl, s ast.Stmt, c *ast.Ca
 			fmt.Fprintf(&hoist, "_ = %s; ", b.tmp)
 			continue
 		}
-		fmt.Fprintf(&hoist, "var %s %s = %s; _ = %s; ", b.name, b.typ, b.tmp, b.name)
+		fmt.Fprintf(&hoist, "%s := %s; _ = %s; ", b.name, b.tmp, b.name)
 	}
 	// named results live inside the block
 	var named []string
@@ -1226,4 +1259,134 @@ func loadFieldBaseline() map[string]string {
 		}
 	}
 	return baselineFields
+}
+
+// unnameResults rewrites the functions of file f that have named results and in which no function literal
+// mentions a result name: the names leave the signature, become locals declared on the line of the
+// opening brace, and every bare `return` lists them. Line numbers are unchanged. Returns the new
+// source and the number of functions rewritten.
+func unnameResults(fset *token.FileSet, f *ast.File, src []byte) ([]byte, int) {
+	type edit struct {
+		from, to int
+		text     string
+	}
+	var edits []edit
+	n := 0
+	off := func(p token.Pos) int { return fset.PositionFor(p, false).Offset }
+	for _, d := range f.Decls {
+		fd, ok := d.(*ast.FuncDecl)
+		if !ok || fd.Body == nil || fd.Type.Results == nil {
+			continue
+		}
+		var names []string
+		named := false
+		for _, fl := range fd.Type.Results.List {
+			for _, nm := range fl.Names {
+				named = true
+				names = append(names, nm.Name)
+			}
+		}
+		if !named {
+			continue
+		}
+		skip := false
+		for _, nm := range names {
+			if nm == "_" {
+				skip = true
+			}
+		}
+		isName := map[string]bool{}
+		for _, nm := range names {
+			isName[nm] = true
+		}
+		ast.Inspect(fd.Body, func(x ast.Node) bool {
+			if fl, ok := x.(*ast.FuncLit); ok {
+				ast.Inspect(fl, func(y ast.Node) bool {
+					if id, ok := y.(*ast.Ident); ok && isName[id.Name] {
+						skip = true
+					}
+					return true
+				})
+				return false
+			}
+			return true
+		})
+		if skip {
+			continue
+		}
+		// signature: types only; locals: one var per result field
+		var types_, decls []string
+		for _, fl := range fd.Type.Results.List {
+			t := string(src[off(fl.Type.Pos()):off(fl.Type.End())])
+			var ns []string
+			for _, nm := range fl.Names {
+				ns = append(ns, nm.Name)
+				types_ = append(types_, t)
+			}
+			decls = append(decls, "var "+strings.Join(ns, ", ")+" "+t+"; ")
+			for _, nm := range ns {
+				decls = append(decls, "_ = "+nm+"; ")
+			}
+		}
+		edits = append(edits, edit{off(fd.Type.Results.Pos()), off(fd.Type.Results.End()), "(" + strings.Join(types_, ", ") + ")"})
+		edits = append(edits, edit{off(fd.Body.Lbrace) + 1, off(fd.Body.Lbrace) + 1, " " + strings.Join(decls, "")})
+		ast.Inspect(fd.Body, func(x ast.Node) bool {
+			if _, ok := x.(*ast.FuncLit); ok {
+				return false
+			}
+			if rs, ok := x.(*ast.ReturnStmt); ok && len(rs.Results) == 0 {
+				edits = append(edits, edit{off(rs.Pos()), off(rs.End()), "return " + strings.Join(names, ", ")})
+			}
+			return true
+		})
+		n++
+	}
+	if n == 0 {
+		return nil, 0
+	}
+	sort.Slice(edits, func(i, j int) bool { return edits[i].from > edits[j].from })
+	out := append([]byte{}, src...)
+	for _, e := range edits {
+		out = append(out[:e.from], append([]byte(e.text), out[e.to:]...)...)
+	}
+	return out, n
+}
+
+// typeNameShadowed: a package-level type named in t is hidden at pos by a local of the same name (so the type
+// cannot be written there).
+func (in *inliner) typeNameShadowed(t types.Type, pos token.Pos) bool {
+	scope := in.pkg.Types.Scope().Innermost(pos)
+	if scope == nil {
+		return false
+	}
+	shadowed := false
+	var walk func(t types.Type, d int)
+	walk = func(t types.Type, d int) {
+		if d > 4 || t == nil {
+			return
+		}
+		switch x := t.(type) {
+		case *types.Pointer:
+			walk(x.Elem(), d+1)
+		case *types.Slice:
+			walk(x.Elem(), d+1)
+		case *types.Array:
+			walk(x.Elem(), d+1)
+		case *types.Map:
+			walk(x.Key(), d+1)
+			walk(x.Elem(), d+1)
+		case *types.Chan:
+			walk(x.Elem(), d+1)
+		case *types.Named:
+			if x.Obj() != nil && x.Obj().Pkg() == in.pkg.Types {
+				if _, o := scope.LookupParent(x.Obj().Name(), pos); o != nil {
+					if _, isType := o.(*types.TypeName); !isType {
+						shadowed = true
+					}
+				}
+			}
+		}
+	}
+	walk(t, 0)
+	return shadowed
 }
